@@ -25,6 +25,7 @@ import (
 	"github.com/google/inverting-proxy/agent/metrics"
 	"github.com/google/inverting-proxy/agent/websockets"
 	"github.com/google/inverting-proxy/zz_verif/vs"
+	"github.com/google/inverting-proxy/zz_verif/vtime"
 	"github.com/google/inverting-proxy/zz_verif/vws"
 	"github.com/google/inverting-proxy/zz_verif/vx"
 )
@@ -37,6 +38,8 @@ type world struct {
 	servers []*vws.Conn // backend ends, in dial order
 	clients []*vws.Conn // agent ends
 	wrapped int
+	// writeCap > 0: the backend's socket buffers hold this many unread client messages
+	writeCap int
 }
 
 func newWorld(injection bool) *world {
@@ -56,6 +59,9 @@ func newWorld(injection bool) *world {
 			return nil, &vws.BadHandshake{Resp: &http.Response{StatusCode: code, Header: http.Header{"Location": {u.Query().Get("to")}}, Body: http.NoBody, Request: req}}
 		}
 		c, s := vws.Pair("agent-ws"+u.Path, "backend-ws"+u.Path)
+		if w.writeCap > 0 {
+			c.SetWriteCap(w.writeCap)
+		}
 		w.clients = append(w.clients, c)
 		w.servers = append(w.servers, s)
 		return c, nil
@@ -415,6 +421,114 @@ func c11DownCloseData(name string, seq []msg, pollAfter []int, thenClose, dataFi
 		}}
 }
 
+// c11Slow: a backend that stops reading for a while. The socket buffers between agent and backend hold
+// capN messages; the client posts n messages (one data post each) while the backend is not reading, so
+// that the writing goroutine is held in WriteMessage and the 10-message queue behind it fills up, then
+// (thenClose) closes the session. After stall the backend reads again until its connection ends. Every
+// call must be answered 200, the backend must receive the n messages in order, and after a close it
+// must see the close frame behind the last message.
+func c11Slow(name string, n, capN int, stall time.Duration, thenClose bool, pb int) vx.Scenario {
+	return vx.Scenario{Name: name, PB: pb, MaxSteps: 40000, MaxTime: 5 * time.Minute,
+		Setup: func(s *vs.Sched) func(*vs.Result) vx.Exec {
+			w := newWorld(false)
+			w.writeCap = capN
+			var results []*callResult
+			var got []string
+			var endErr error
+			ended := false
+			s.Thread("client", func() {
+				res := w.call("open", "ws://client.example/sock", nil)
+				results = append(results, res)
+				var o struct {
+					ID string `json:"id"`
+				}
+				json.Unmarshal([]byte(res.body), &o)
+				for i := 0; i < n; i++ {
+					b, _ := json.Marshal([]map[string]interface{}{{"id": o.ID, "msg": fmt.Sprintf("m%02d", i)}})
+					results = append(results, w.call("data", string(b), nil))
+				}
+				if thenClose {
+					results = append(results, w.call("close", fmt.Sprintf(`{"id":%q}`, o.ID), nil))
+				}
+			})
+			s.DaemonThread("backend", func() {
+				vs.Wait("backend: connection", nil, func() bool { return len(w.servers) > 0 })
+				vtime.Sleep(stall)
+				for {
+					_, d, err := w.servers[0].ReadMessage()
+					if err != nil {
+						endErr, ended = err, true
+						return
+					}
+					got = append(got, string(d))
+				}
+			})
+			return func(r *vs.Result) vx.Exec {
+				var x vx.Exec
+				base(r, &x)
+				for _, res := range results {
+					if !res.done || res.status != 200 {
+						x.Violations = append(x.Violations, fmt.Sprintf("CALL: %s answered %d %s (the backend was only slow)", res.op, res.status, clip(res.body)))
+					}
+				}
+				for _, b := range r.Blocked {
+					if b.Thread == "client" {
+						x.Violations = append(x.Violations, "WEDGE: client call never returned: "+b.Op)
+					}
+				}
+				x.Obs = fmt.Sprintf("sent=%d got=%d ended=%v", n, len(got), ended)
+				if len(x.Violations) > 0 {
+					return x
+				}
+				for i := 0; i < n || i < len(got); i++ {
+					want, have := "(nothing)", "(nothing)"
+					if i < n {
+						want = fmt.Sprintf("m%02d", i)
+					}
+					if i < len(got) {
+						have = got[i]
+					}
+					if want != have {
+						x.Violations = append(x.Violations, fmt.Sprintf("SLOW-BACKEND: the client's %d messages were all accepted, the backend (which read again after %v) received %d; position %d: sent %s, received %s", n, stall, len(got), i, want, have))
+						return x
+					}
+				}
+				if thenClose {
+					ce, _ := endErr.(*vws.CloseError)
+					if !ended || ce == nil || ce.Code != vws.CloseNormalClosure {
+						x.Violations = append(x.Violations, fmt.Sprintf("SLOW-BACKEND-CLOSE: the close call was answered 200 but the backend websocket did not see the close frame behind the last message (backend read ended: %v, error %v)", ended, endErr))
+					}
+				}
+				return x
+			}
+		}}
+}
+
+func c11SlowScenarios(th bool) []vx.Scenario {
+	var out []vx.Scenario
+	// capN in the socket, one in the writer's hand, ten in the queue: around that mark, with and without a close
+	ns := []int{12, 13, 14}
+	pb := 1
+	if th {
+		ns = []int{3, 11, 12, 13, 14, 15, 24}
+		pb = 2
+	}
+	for _, n := range ns {
+		for _, cl := range []bool{true, false} {
+			p := pb
+			if n > 13 && !th {
+				p = 0
+			}
+			out = append(out, c11Slow(fmt.Sprintf("c11/slow-backend/n%d/cap2/stall15s/close=%v", n, cl), n, 2, 15*time.Second, cl, p))
+		}
+	}
+	out = append(out, c11Slow("c11/slow-backend/n13/cap2/stall45s/close=true", 13, 2, 45*time.Second, true, 0))
+	if th {
+		out = append(out, c11Slow("c11/slow-backend/n13/cap1/stall2m/close=true", 13, 1, 2*time.Minute, true, 1))
+	}
+	return out
+}
+
 func compositions(n int) [][]int {
 	if n == 0 {
 		return [][]int{{}}
@@ -514,6 +628,7 @@ func c11Scenarios(th bool) []vx.Scenario {
 		out = append(out, c11Down(fmt.Sprintf("c11/down/long%d/poll-at-end", n), long, []int{n}, 1))
 		out = append(out, c11Down(fmt.Sprintf("c11/down/long%d/poll-early", n), long, []int{0, 1}, 1))
 	}
+	out = append(out, c11SlowScenarios(th)...)
 	return out
 }
 
@@ -1091,6 +1206,10 @@ func c12Scenarios(th bool) []vx.Scenario {
 		a11 := alphabetC11(false)
 		out = append(out, c11Down("c12/delivery/[0 1 2]/poll@3", []msg{a11[0], a11[1], a11[2]}, []int{3}, 0))
 		out = append(out, c11DownClose("c12/delivery/[2 0 1]/then-close/poll@3", []msg{a11[2], a11[0], a11[1]}, []int{3}, true, 0))
+	}
+	// closing while the backend is not reading and the queue towards it is full
+	for _, n := range []int{12, 13, 14} {
+		out = append(out, c11Slow(fmt.Sprintf("c12/close-under-back-pressure/n%d/cap2/stall15s", n), n, 2, 15*time.Second, true, 1))
 	}
 	al := c12Alphabet()
 	depth := 4
